@@ -1,4 +1,215 @@
+import BobModel.Model.Download
 import BobModel.Util.Proto
-open Lean Proto
-/-- stub driver of C07: replaced when the model of this property is built -/
-def main : IO Unit := runPure fun _ => err "unsupported"
+open Lean Proto Download
+
+/-
+driver of C07 (Model/Download.lean)
+
+requests:
+ {"op":"mode","mode":"yes"|…|"packages","can":b}                                 -> {"depth":n,"depthForce":n}
+ {"op":"dissect","inp":INP}                                                      -> {"wasDownloaded":b,"wasShared":b,"oldInput":[RH..]|null,"oldBid":null|bid|"other"}
+ {"op":"dl","cfg":CFG,"depth":n,"info":INFO,"bid":s,"loc":LOC,"art":ART}           -> {"ops":[OP..],"out":"no"|"downloaded"|"error","loc":LOC}
+ {"op":"pkg","cfg":CFG,"info":INFO,"bid":s,"depC":[c..],"tok":n,"loc":LOC}         -> {"ops":[OP..],"built":b,"loc":LOC}
+ {"op":"prep","info":INFO,"loc":LOC}                                             -> {"ops":[OP..],"loc":LOC}
+ {"op":"cook","cfg":CFG,"tree":TREE,"state":{path:LOC},"arch":{bid:ART},"bids":[[rsig,src,[bid..],bid]..]}
+        -> {"res":"ok"|"abort"|"restart","log":[OP..],"state":{path:LOC},"arch":{bid:ART},"fixed":[path..]}
+ CFG  = {"mode":s,"can":b,"force":b,"upload":b,"uploadDepth":n} (or "dlDepth"/"dlDepthForce" instead of "mode")
+ INFO = {"path","vid","rsig","src","pred":s|null,"pkgMatch":b,"layerMode":null|"no"|"yes"|"forced"}
+ TREE = INFO + {"deps":[TREE..]}
+ LOC  = {"res":RH|null,"inp":INP|null,"dir":s|null,"vidv":s|null,"disk":s|null,"audit":s|null}
+ RH   = {"hash":s} | {"forged":n} ;  INP = {"built":[bid,[RH|null..]]} | {"downloaded":bid} | {"shared":[bid,loc]} | "legacy"
+ ART  = null | "broken" | {"good":c,"audit":s|null}
+ the environment: H c = "H(c)", semB rs s cs = "B(rs|s|c1,c2,)", semP rs c = "P(rs|c)", junk = "junk",
+ B rs s bs = the entry of "bids" for (rs, s, bs) or "bid(rs|s|b1,b2,)"
+-/
+
+def optStr (j : Json) (k : String) : Option String :=
+  match j.getObjVal? k with
+  | .ok (.str s) => some s
+  | _ => none
+
+def rhOf (j : Json) : Option RH :=
+  match j.getObjVal? "hash" with
+  | .ok (.str h) => some (.hash h)
+  | _ => match j.getObjVal? "forged" with
+    | .ok v => some (.forged ((v.getNat?.toOption).getD 0))
+    | _ => none
+
+def rhJson : Option RH → Json
+  | none => Json.null
+  | some (.hash h) => Json.mkObj [("hash", Json.str h)]
+  | some (.forged t) => Json.mkObj [("forged", Json.num t)]
+
+def inpOf (j : Json) : Option PkgInputs :=
+  match j with
+  | .str "legacy" => some .legacy
+  | _ => match j.getObjVal? "downloaded" with
+    | .ok (.str b) => some (.downloaded b)
+    | _ => match j.getObjVal? "shared" with
+      | .ok (.arr #[.str b, .str l]) => some (.shared b l)
+      | _ => match j.getObjVal? "built" with
+        | .ok (.arr #[.str b, .arr ins]) => some (.built b (ins.toList.map rhOf))
+        | _ => none
+
+def inpJson : Option PkgInputs → Json
+  | none => Json.null
+  | some .legacy => Json.str "legacy"
+  | some (.downloaded b) => Json.mkObj [("downloaded", Json.str b)]
+  | some (.shared b l) => Json.mkObj [("shared", Json.arr #[Json.str b, Json.str l])]
+  | some (.built b ins) => Json.mkObj [("built", Json.arr #[Json.str b, Json.arr (ins.map rhJson).toArray])]
+
+def ostr : Option String → Json
+  | none => Json.null
+  | some s => Json.str s
+
+def locOf (j : Json) : Loc :=
+  { res := rhOf (j.getObjValD "res"), inp := inpOf (j.getObjValD "inp"), dir := optStr j "dir", vidv := optStr j "vidv",
+    disk := optStr j "disk", audit := optStr j "audit" }
+
+def locJson (l : Loc) : Json :=
+  Json.mkObj [("res", rhJson l.res), ("inp", inpJson l.inp), ("dir", ostr l.dir), ("vidv", ostr l.vidv),
+              ("disk", ostr l.disk), ("audit", ostr l.audit)]
+
+def artOf (j : Json) : Option Artifact :=
+  match j with
+  | .str "broken" => some .broken
+  | _ => match j.getObjVal? "good" with
+    | .ok (.str c) => some (.good c (optStr j "audit"))
+    | _ => none
+
+def artJson : Option Artifact → Json
+  | none => Json.null
+  | some .broken => Json.str "broken"
+  | some (.good c a) => Json.mkObj [("good", Json.str c), ("audit", ostr a)]
+
+def layerOf (j : Json) (k : String) : Option LayerMode :=
+  match optStr j k with
+  | some "no" => some .no
+  | some "yes" => some .yes
+  | some "forced" => some .forced
+  | _ => none
+
+def infoOf (j : Json) : PInfo :=
+  { path := getStr j "path", vid := getStr j "vid", rsig := getStr j "rsig", src := getStr j "src", pred := optStr j "pred",
+    pkgMatch := getBool j "pkgMatch", layerMode := layerOf j "layerMode" }
+
+partial def treeOf (j : Json) : Pkg :=
+  .mk (infoOf j) ((getArr j "deps").map treeOf)
+
+def cfgOf (j : Json) : Cfg :=
+  let can := getBool j "can"
+  let dl : DlCfg := match (optStr j "mode").bind Mode.ofString with
+    | some m => setDownloadMode m can
+    | none => { depth := getNat j "dlDepth", depthForce := getNat j "dlDepthForce" }
+  { dl := dl, canDownload := can, force := getBool j "force", upload := getBool j "upload", uploadDepth := getNat j "uploadDepth" }
+
+def fetchJson : Fetch → Json
+  | .notFound => Json.str "notFound"
+  | .failed => Json.str "failed"
+  | .extracted c a => Json.mkObj [("extracted", Json.arr #[Json.str c, ostr a])]
+
+def opJson : Op → Json
+  | .mkDir p => Json.arr #["mkDir", Json.str p]
+  | .reset p v => Json.arr #["reset", Json.str p, ostr v]
+  | .emptyDir p => Json.arr #["emptyDir", Json.str p]
+  | .rmAudit p => Json.arr #["rmAudit", Json.str p]
+  | .download p b r => Json.arr #["download", Json.str p, Json.str b, fetchJson r]
+  | .hashWs p => Json.arr #["hashWs", Json.str p]
+  | .auditRead p => Json.arr #["auditRead", Json.str p]
+  | .delInputs p => Json.arr #["delInputs", Json.str p]
+  | .setResult p r => Json.arr #["setResult", Json.str p, rhJson (some r)]
+  | .setVid p v => Json.arr #["setVid", Json.str p, Json.str v]
+  | .setInputs p i => Json.arr #["setInputs", Json.str p, inpJson (some i)]
+  | .runPackage p c => Json.arr #["runPackage", Json.str p, Json.str c]
+  | .upload p b => Json.arr #["upload", Json.str p, Json.str b]
+  | .mispredict p => Json.arr #["mispredict", Json.str p]
+
+def join (l : List String) : String := String.join (l.map fun s => s ++ ",")
+
+def bidRows (j : Json) : List (String × String × List String × String) :=
+  (getArr j "bids").filterMap fun r => match r with
+    | .arr #[.str rs, .str s, bs, .str b] => some (rs, s, strList bs, b)
+    | _ => none
+
+def envOf (rows : List (String × String × List String × String)) : Env :=
+  { H := fun c => "H(" ++ c ++ ")",
+    semB := fun rs s cs => "B(" ++ rs ++ "|" ++ s ++ "|" ++ join cs ++ ")",
+    semP := fun rs c => "P(" ++ rs ++ "|" ++ c ++ ")",
+    B := fun rs s bs => match rows.find? (fun r => r.1 == rs && r.2.1 == s && r.2.2.1 == bs) with
+      | some r => r.2.2.2
+      | none => "bid(" ++ rs ++ "|" ++ s ++ "|" ++ join bs ++ ")",
+    junk := "junk" }
+
+def objPairs (j : Json) : List (String × Json) :=
+  match j with
+  | .obj kvs => kvs.toList
+  | _ => []
+
+def outName : DlOutcome → String
+  | .no => "no" | .downloaded => "downloaded" | .error => "error"
+
+def dissectJson (d : Dissected) : Json :=
+  Json.mkObj [("wasDownloaded", Json.bool d.wasDownloaded), ("wasShared", Json.bool d.wasShared),
+    ("oldInput", match d.oldInput with | none => Json.null | some l => Json.arr (l.map rhJson).toArray),
+    ("oldBid", match d.oldBid with | .none => Json.null | .bid b => Json.str b | .other => Json.mkObj [("other", Json.bool true)])]
+
+def pathsOf (t : Pkg) : List Path := (nodes t).map Pkg.path
+
+def handle (j : Json) : Json :=
+  let E := envOf (bidRows j)
+  match getStr j "op" with
+  | "mode" =>
+    match Mode.ofString (getStr j "mode") with
+    | some m =>
+      let c := setDownloadMode m (getBool j "can")
+      Json.mkObj [("depth", Json.num c.depth), ("depthForce", Json.num c.depthForce)]
+    | none => err "bad-mode"
+  | "dissect" => dissectJson (dissect (inpOf (j.getObjValD "inp")))
+  | "prep" =>
+    let i := infoOf (j.getObjValD "info")
+    let l := locOf (j.getObjValD "loc")
+    let ops := prepOps i l
+    Json.mkObj [("ops", Json.arr (ops.map opJson).toArray), ("loc", locJson (ops.foldl (fun l op => (applyOp E ({ St.init with
+        results := fun _ => l.res, inputs := fun _ => l.inp, dirStates := fun _ => l.dir, variantIds := fun _ => l.vidv,
+        disk := fun _ => l.disk, audit := fun _ => l.audit }, fun _ => none) op).1.loc i.path) l))]
+  | "dl" =>
+    let i := infoOf (j.getObjValD "info")
+    let l := locOf (j.getObjValD "loc")
+    let r := dlOps E (cfgOf (j.getObjValD "cfg")) (getNat j "depth") i (getStr j "bid") l (artOf (j.getObjValD "art"))
+    let s0 : St := { results := fun _ => l.res, inputs := fun _ => l.inp, dirStates := fun _ => l.dir,
+                     variantIds := fun _ => l.vidv, disk := fun _ => l.disk, audit := fun _ => l.audit }
+    let sa := applyOps E (s0, fun _ => none) r.1
+    Json.mkObj [("ops", Json.arr (r.1.map opJson).toArray), ("out", Json.str (outName r.2)), ("loc", locJson (sa.1.loc i.path))]
+  | "pkg" =>
+    let i := infoOf (j.getObjValD "info")
+    let l := locOf (j.getObjValD "loc")
+    let r := pkgOps E (cfgOf (j.getObjValD "cfg")) i (getStr j "bid") (strList (j.getObjValD "depC")) (getNat j "tok") l
+    let s0 : St := { results := fun _ => l.res, inputs := fun _ => l.inp, dirStates := fun _ => l.dir,
+                     variantIds := fun _ => l.vidv, disk := fun _ => l.disk, audit := fun _ => l.audit }
+    let sa := applyOps E (s0, fun _ => none) r.1
+    Json.mkObj [("ops", Json.arr (r.1.map opJson).toArray), ("built", Json.bool r.2), ("loc", locJson (sa.1.loc i.path))]
+  | "cook" =>
+    let t := treeOf (j.getObjValD "tree")
+    let stl := (objPairs (j.getObjValD "state")).map fun (p, l) => (p, locOf l)
+    let look (p : Path) : Loc := match stl.find? (fun x => x.1 == p) with
+      | some x => x.2
+      | none => ⟨none, none, none, none, none, none⟩
+    let s0 : St := { results := fun p => (look p).res, inputs := fun p => (look p).inp, dirStates := fun p => (look p).dir,
+                     variantIds := fun p => (look p).vidv, disk := fun p => (look p).disk, audit := fun p => (look p).audit }
+    let al := (objPairs (j.getObjValD "arch")).map fun (b, a) => (b, artOf a)
+    let a0 : Archive := fun b => match al.find? (fun x => x.1 == b) with
+      | some x => x.2
+      | none => none
+    let res := cook E (cfgOf (j.getObjValD "cfg")) t s0 a0
+    let r := res.run
+    let ps := (pathsOf t).eraseDups
+    let bidsSeen := (r.log.filterMap fun op => match op with | .upload _ b => some b | _ => none) ++ al.map (·.1)
+    Json.mkObj [("res", Json.str (match res with | .ok _ => "ok" | .abort _ => "abort" | .restart _ => "restart")),
+      ("log", Json.arr (r.log.map opJson).toArray),
+      ("state", Json.mkObj (ps.map fun p => (p, locJson (r.st.loc p)))),
+      ("arch", Json.mkObj (bidsSeen.eraseDups.map fun b => (b, artJson (r.arch b)))),
+      ("fixed", Json.arr ((ps.filter r.mem.fixed).map Json.str).toArray),
+      ("wasRun", Json.arr ((ps.filter fun p => (r.mem.wasRun p).isSome).map Json.str).toArray)]
+  | _ => err "bad-op"
+
+def main : IO Unit := runPure handle
